@@ -149,6 +149,8 @@ var kinds = []struct {
 }{{"ProcessInbound", false}, {"ProcessInbound", true}, {"GetInboundAnswer", false},
 	// the relay histories come before the direct SetDeferred of the same identifier: GetOutbound does not hand out deferred messages
 	{"relay-sent", false}, {"relay-rejected", false}, {"relay-deferred", false},
+	// several messages in one ProcessInbound call, the hostile one behind messages that fail for other reasons
+	{"batch-invalid-first", false}, {"batch-good-baddate-hostile", false}, {"batch-two-hostile", false},
 	{"SetSent", false}, {"SetDeferred", false}}
 
 type params struct {
